@@ -7,6 +7,9 @@
 (* computed from the history alone.                                        *)
 (*                                                                         *)
 (*   actions   NewRoot(d)   = NewContextWith(d)                            *)
+(*             NewRootCtx(w)= NewContextWithContext(ctx): the root answers *)
+(*                            from the wrapped context.Context (`wrapped`) *)
+(*                            what no scope of the chain binds             *)
 (*             NewChild(c)  = Context.New / NewContextWithOuter({}, c)     *)
 (*             Set(c,k,v)   = Context.Set                                  *)
 (*   observers Lookup       = Context.Value,  Has = Value # nil            *)
@@ -30,8 +33,9 @@ Builtin == "BUILTIN"    \* the default helper registered under a helper name
 Nil     == "nil"        \* Go nil
 
 VARIABLES outer,   \* outer[c] = parent id, 0 for a root; contexts are 1..Len(outer)
-          data     \* data[c] = partial function name -> value (the context's own map)
-cvars == <<outer, data>>
+          data,    \* data[c] = partial function name -> value (the context's own map)
+          wrapped  \* the values of the context.Context the root was built around (name -> value)
+cvars == <<outer, data, wrapped>>
 
 N == Len(outer)
 
@@ -40,8 +44,8 @@ EmptyMap == [x \in {} |-> Nil]
 
 \* ---------------------------------------------------------------- as built
 RECURSIVE LookupIn(_, _, _, _)
-LookupIn(o, d, c, k) ==                         \* Context.Value: own map, then outer
-  IF c = 0 THEN Nil
+LookupIn(o, d, c, k) ==                         \* Context.Value: own map, then outer, at the root the wrapped context
+  IF c = 0 THEN (IF k \in DOMAIN wrapped THEN wrapped[k] ELSE Nil)
   ELSE IF k \in DOMAIN d[c] THEN d[c][k]
   ELSE LookupIn(o, d, o[c], k)
 Lookup(c, k) == LookupIn(outer, data, c, k)
@@ -63,8 +67,9 @@ Inject(d, o) == [k \in DOMAIN d \cup {h \in HelperKeys : InjectGuard(d, o, h)} |
 \* core actions (no history): a context with final own map d under outer o; a write
 NewCore(o, d) == /\ outer' = Append(outer, o)
                  /\ data'  = Append(data, d)
+                 /\ UNCHANGED wrapped
 SetCore(c, k, v) == /\ data' = [data EXCEPT ![c] = Bind(@, k, v)]
-                    /\ UNCHANGED outer
+                    /\ UNCHANGED <<outer, wrapped>>
 
 RECURSIVE DescOrSelf(_, _)
 DescOrSelf(d, c) == IF d = 0 THEN FALSE ELSE d = c \/ DescOrSelf(outer[d], c)
